@@ -143,6 +143,11 @@ def fixedarray_search(part, N):
                 v = vals(n, kind, 10.0)
                 lit = "%s(%r)" % ({"list": "list", "tuple": "tuple", "ndarray": "np.array"}[kind], [10.0 + i for i in range(n)])
                 S.attempt(base + ".CreateCopy(values=%s)" % lit, lambda: f.CreateCopy(values=v), n == d, f)
+                # ... also together with a unit (and a unit + category): for a quantity without category (the
+                # result of length / length, CreateEmptyArray) this takes a branch of its own
+                if not q.IsDerived() or unit == "":
+                    S.attempt(base + ".CreateCopy(values=%s, unit='m')" % lit, lambda: f.CreateCopy(values=v, unit="m"), (n == d) if (unit == "" or simple and q.GetQuantityType() == "length") else None, f)
+                    S.attempt(base + ".CreateCopy(values=%s, unit='m', category='length')" % lit, lambda: f.CreateCopy(values=v, unit="m", category="length"), n == d, f)
                 # arithmetic with Arrays / FixedArrays / raw ndarrays of every length
                 for opn, op in (("+", lambda a, b: a + b), ("*", lambda a, b: a * b), ("-", lambda a, b: a - b), ("/", lambda a, b: a / b)):
                     if simple:
@@ -267,6 +272,9 @@ def curve_search(part, N):
         out = [("Array(%r, 'm')" % ([1.0] * n,), lambda: Array([1.0] * n, "m")), ("Array(np.zeros(%d), 's')" % n, lambda: Array(np.zeros(n), "s"))]
         if n >= 2:
             out.append(("FixedArray(%d, %r, 'm')" % (n, (2.0,) * n), lambda: FixedArray(n, (2.0,) * n, "m")))
+        # n ENTRIES that are themselves pairs / rows: the length of a curve's array is its number of entries
+        out.append(("Array(%r, 'm')" % ([(1.0, 2.0)] * n,), lambda: Array([(1.0, 2.0)] * n, "m")))
+        out.append(("Array(np.ones((%d, 2)), 'm')" % n, lambda: Array(np.ones((n, 2)), "m")))
         return out
 
     def judge(c, how, err):
